@@ -769,15 +769,18 @@ func checkIdem(h *Hist, p *Prof, in string, webGrammar bool) {
 	if err2 == nil && v.String() == s1 {
 		return
 	}
+	// F18 / F18b are about hosts, paths and queries that decode to delimiters: a second run that differs from the first
+	// ONLY in the fragment is not one of them
+	onlyFragment := err2 == nil && v.Href(true) == u.Href(true)
 	class := "other"
 	switch {
 	case hasAceLabel(u.Hostname()):
 		class = "idn-host"
 	case (p.V.SortQuery != 0 || p.V.RepeatedPercentDecoding) && roundTripClass(spList(u)) != "other":
 		class = roundTripClass(spList(u))
-	case p.V.RepeatedPercentDecoding && !webGrammar && !u.IsSpecialScheme():
+	case p.V.RepeatedPercentDecoding && !webGrammar && !u.IsSpecialScheme() && !onlyFragment:
 		class = "repeated-decoding-non-special"
-	case p.V.RepeatedPercentDecoding && !webGrammar:
+	case p.V.RepeatedPercentDecoding && !webGrammar && !onlyFragment:
 		class = "repeated-decoding-outside-web-grammar"
 	case stdNonRoundTrip(u):
 		class = "std-exception"
